@@ -62,11 +62,14 @@ K6 == P("Pair", <<Ref(K2), IntE(7)>>, <<>>)                    \* a value that r
 K7 == Sq(<<>>)                                                 \* the empty sequence: a registered expression that is "empty"
 K8 == P("Pair", <<Ref(K2), Ref(K2)>>, <<>>)                   \* a body that uses the same constant twice
 K9 == P("Pair", <<Ref(K6), Ref(K8)>>, <<>>)                   \* a diamond: K9 -> K6 -> K2 and K9 -> K8 -> K2 (sharing inside an acyclic graph)
+KP == Sq(<<P0("IS_IMPLICIT_ACCOUNT"), P0("NAT"), P0("BYTES"), P("EMIT", <<P0("nat")>>, <<"%e">>), P0("MIN_BLOCK_TIME"), P0("SUB_MUTEZ"),
+          P("VIEW", <<Lit("v"), P0("tx_rollup_l2_address")>>, <<>>), P0("OPEN_CHEST"), P0("GET_AND_UPDATE"), P0("JOIN_TICKETS"), P0("chest_key")>>)
+                                                              \* the youngest primitives of the table: the hash of a constant is a hash of its bytes
 Ghost == P0("nat")                                            \* never registered: its hash is unknown
 
 SubsetsUpTo(S, b) == {R \in SUBSET S : Cardinality(R) <= b}
 ScriptRegs == SubsetsUpTo({K1, K2, K3, K4, K5}, MaxReg)
-DataRegs   == SubsetsUpTo({K1, K2, K6, K7}, MaxReg) \cup {{K2, K8}, {K2, K6, K8, K9}, {K2, K8, K9}}
+DataRegs   == SubsetsUpTo({K1, K2, K6, K7}, MaxReg) \cup {{K2, K8}, {K2, K6, K8, K9}, {K2, K8, K9}, {KP}, {K2, KP}}
 
 PushPlain == P("PUSH", <<P0("int"), IntE(12345)>>, <<>>)
 ParamAlts == {P0("unit"), Ref(K1), P("pair", <<Ref(K1), P0("unit")>>, <<"%a">>), Ref(K3)}
@@ -83,11 +86,17 @@ InstrAlts == {PushPlain,
                                  Sq(<<PushPlain, P("PUSH", <<P0("string"), HashStr(K2)>>, <<>>), P0("DROP")>>)} ELSE {})
 CodeAlts == {Sq(<<P0("DROP"), ins, P("NIL", <<P0("operation")>>, <<>>), P0("PAIR")>>) : ins \in InstrAlts}
             \cup {Sq(<<Ref(K5), P("NIL", <<P0("operation")>>, <<>>), P0("PAIR")>>)}
+\* references inside a view section (argument type, return type, code)
+ViewAlts == {P("view", <<Lit("v"), Ref(K1), P0("int"), Sq(<<P0("CAR")>>)>>, <<>>),
+             P("view", <<Lit("w"), P0("unit"), Ref(K1), Sq(<<P0("DROP"), Ref(K4)>>)>>, <<>>)}
 Scripts == {Sq(<<P("parameter", <<pt>>, <<>>), P("storage", <<st>>, <<>>), P("code", <<cd>>, <<>>)>>) :
               pt \in ParamAlts, st \in StoreAlts, cd \in CodeAlts}
+           \cup {Sq(<<P("parameter", <<P0("unit")>>, <<>>), P("storage", <<st>>, <<>>),
+                      P("code", <<Sq(<<P0("DROP"), PushPlain, P("NIL", <<P0("operation")>>, <<>>), P0("PAIR")>>)>>, <<>>), vw>>) :
+                   st \in {P0("int"), Ref(K1)}, vw \in ViewAlts}
 
 A0 == {IntE(1), Ref(K2), Ref(K6), Ref(K7), Ref(Ghost)}
-Shared == {Ref(K8), Ref(K9), P("Pair", <<Ref(K8), Ref(K2)>>, <<>>), Sq(<<Ref(K9), Ref(K9)>>)}
+Shared == {Ref(KP), P("Pair", <<Ref(KP), Ref(K2)>>, <<>>), Ref(K8), Ref(K9), P("Pair", <<Ref(K8), Ref(K2)>>, <<>>), Sq(<<Ref(K9), Ref(K9)>>)}
 A1 == A0 \cup {P("Pair", <<x, y>>, <<>>) : x \in A0, y \in A0}
          \cup {Sq(<<x, y>>) : x \in A0, y \in A0}
          \cup {P("Some", <<x>>, <<"%s">>) : x \in A0}
